@@ -994,4 +994,74 @@ theorem run_exports_effects (s : St) (evs : List Ev) (hconts : s.conts = [])
 example : (runEntry 0 0 (.koto 0) [.newFrame 4, .exportVal 1, .exportVal 2, .call 2 0, .newFrame 1,
     .raise true, .exportVal 3] init).vm.exports = [1, 2] := by decide
 
+
+/-! ## Generator VMs: an escaped error finishes the generator -/
+
+theorem unwindGo_no_barrier (c : Bool) : ∀ (fs : List Frame) (vm : VM),
+    vm.stack = fs → (∀ f ∈ fs, f.barrier = false) → (unwindGo c fs vm).2 = none →
+    (unwindGo c fs vm).1.stack = [] := by
+  intro fs
+  induction fs with
+  | nil => intro vm hs _ _; simpa [unwindGo] using hs
+  | cons f rest ih =>
+    intro vm hs hnb hnone
+    have hb : f.barrier = false := hnb f (by simp)
+    unfold unwindGo at hnone ⊢
+    split at hnone
+    · simp at hnone
+    · split
+      · rename_i heq _; simp_all
+      · simp only [hb, Bool.false_eq_true, if_false] at hnone ⊢
+        exact ih (popTo f rest vm).1 (popTo_fields f rest vm).1
+          (fun g hg => hnb g (List.mem_cons_of_mem _ hg)) hnone
+
+/-- **generator_escaped_error_finishes**: in a generator VM (no frame carries an execution
+barrier) an error that is not caught inside the generator — thrown value, runtime error, failed
+type check, timeout — pops *every* frame: the frame count is 0, `continue_running` will report the
+end of the iteration, and no later resumption can continue past the failure point. (If the error is
+caught inside the generator the loop simply continues: `conts` is unchanged.) -/
+theorem generator_escaped_error_finishes (c : Bool) (vm : VM)
+    (hnb : ∀ f ∈ vm.stack, f.barrier = false) :
+    (raise c ⟨vm, [.loop .propagate]⟩).conts = [.loop .propagate] ∨
+    ((raise c ⟨vm, [.loop .propagate]⟩).conts = [] ∧
+     (raise c ⟨vm, [.loop .propagate]⟩).vm.stack = [] ∧
+     genFinished (raise c ⟨vm, [.loop .propagate]⟩).vm = true) := by
+  have hune : unwind c vm = unwindGo c vm.stack vm := rfl
+  rcases hres : unwindGo c vm.stack vm with ⟨vm1, r⟩
+  cases r with
+  | some cr =>
+    left
+    simp [raise, raiseGo_loop_some .propagate [] c vm vm1 cr (by rw [hune, hres])]
+  | none =>
+    right
+    have hstk : vm1.stack = [] := by
+      have := unwindGo_no_barrier c vm.stack vm rfl hnb (by rw [hres])
+      rw [hres] at this; exact this
+    have hx : exitErr .propagate vm1 = vm1 := by simp [exitErr, popFrameD, popFrame, hstk]
+    have hr : raise c ⟨vm, [.loop .propagate]⟩ = raiseGo [.loop .propagate] c vm := rfl
+    cases raiseGo_loop_none .propagate [] c vm vm1 (by rw [hune, hres]) with
+    | inl h =>
+      have h2 : raiseGo [] true (exitErr .propagate vm1) = ⟨vm1, []⟩ := by simp [raiseGo, hx]
+      rw [hr, h, h2]
+      simp [hstk, genFinished]
+    | inr h =>
+      rw [hr, h, hx]
+      simp [hstk, genFinished]
+
+/-- A finished generator stays finished: a later resumption runs nothing, whatever events are
+offered. -/
+theorem generator_finished_stays (evs : List Ev) (vm : VM) (h : genFinished vm = true) :
+    genResume evs vm = ⟨vm, []⟩ := by
+  simp [genResume, h]
+
+/-- Non-vacuity: `yield 1; throw …` on its second resumption, two calls deep, with a timeout
+variant; afterwards any resumption leaves the VM untouched. -/
+theorem generator_example :
+    let vm1 := (genResume [.newFrame 3] (genInit 0)).vm                      -- runs to `yield 1`
+    let st2 := genResume [.call 2 0, .newFrame 2, .raise true, .newFrame 9] vm1 -- fails
+    let st2' := genResume [.call 2 0, .newFrame 2, .raise false] vm1          -- times out
+    genFinished vm1 = false ∧ st2.conts = [] ∧ genFinished st2.vm = true ∧
+    genFinished st2'.vm = true ∧ genResume [.newFrame 3, .ret] st2.vm = ⟨st2.vm, []⟩ := by
+  decide
+
 end KotoVerif.C07
